@@ -223,7 +223,12 @@ func (w *world) apply(op *Op, emit func(map[string]interface{})) {
 			for _, h := range w.sched.Missing(0) {
 				w.flight[h] = true
 			}
+			var asked []common.Hash
 			for h := range w.flight {
+				asked = append(asked, h)
+			}
+			sort.Slice(asked, func(i, j int) bool { return w.src.idOf[asked[i]] < w.src.idOf[asked[j]] })
+			for _, h := range asked {
 				delete(w.flight, h)
 				id := w.src.idOf[h]
 				if id == 0 {
